@@ -1247,6 +1247,197 @@ func (g *c16Gen) retries(i int, seed uint64) *c16Scenario {
 	return sc
 }
 
+// converge: a selected target, a deterministic hook (constant / StatefulSet-like ordered / echoing what it
+// observes) and an initial population in every role: nothing, matching attachments, drifted and deleted ones,
+// undesired ones of ours, look-alikes (controlled by the target but unmarked or marked by another decorator;
+// our marker but another controller; the target as a plain owner), unowned objects. Fault-free syncs with
+// fresh caches until one sends no write, then one more.
+func (g *c16Gen) converge(i int, seed uint64) *c16Scenario {
+	r := g.r
+	sc := g.basic("converge", i, seed)
+	var rule c16RuleSpec
+	for _, ru := range sc.Ctl.Rules {
+		if ru.Kind == sc.Target["kind"] {
+			rule = ru
+		}
+	}
+	lm := c16Meta(sc.Target, "labels")
+	c16Satisfy(lm, rule.Labels)
+	am := c16Meta(sc.Target, "annotations")
+	c16Satisfy(am, rule.Annotations)
+	md := sc.Target["metadata"].(map[string]interface{})
+	md["labels"], md["annotations"] = lm, am
+	sc.Features = c16DropFeatures(sc.Features, "method-", "attachment-", "hook-changes-mind", "edited-between-rounds", "maybe-unselected",
+		"unmarked-", "lookalike-")
+	sc.Setup, sc.Objects, sc.Hook2, sc.Rounds = nil, nil, nil, nil
+	sc.Ctl.Finalize = r.Chance(1, 4)
+	sc.Ctl.NoSync = false
+	// one or two attachment kinds: core group and named group, any method including none
+	core, named := c16AttConfigMap, c16AttGadget
+	if !rule.Namespaced {
+		named = c16AttClusterGadget
+	}
+	core.Method, named.Method = c16Methods[r.Intn(len(c16Methods))], c16Methods[r.Intn(len(c16Methods))]
+	switch r.Intn(4) {
+	case 0:
+		sc.Ctl.Attachments = []c16AttSpec{core}
+	case 1:
+		sc.Ctl.Attachments = []c16AttSpec{named}
+	case 2:
+		sc.Ctl.Attachments = []c16AttSpec{core, named}
+	default:
+		sc.Ctl.Attachments = []c16AttSpec{named, core}
+	}
+	c16RuleFeatures(sc)
+	h := c16HookProgram{Kind: "const", Labels: map[string]*string{"deco-converge": c16Str(fmt.Sprintf("v%d", r.Intn(2)))}}
+	if r.Bool() {
+		h.Annotations = map[string]*string{"deco-converge-note": c16Str("")}
+	}
+	switch r.Intn(3) {
+	case 0:
+		h.StatusMode, h.Status = "const", c16J{"phase": "Decorated", "n": int64(r.Intn(3))}
+	case 1:
+		h.StatusMode = "null"
+	}
+	nd := 1 + r.Intn(4)
+	for j := 0; j < nd; j++ {
+		a := sc.Ctl.Attachments[r.Intn(len(sc.Ctl.Attachments))]
+		h.Attachments = append(h.Attachments, g.attachment(a, rule, fmt.Sprintf("d%d", j), 1))
+	}
+	updating := false
+	for _, a := range sc.Ctl.Attachments {
+		if a.Method != "" && a.Method != "OnDelete" {
+			updating = true
+		}
+	}
+	switch r.Intn(5) {
+	case 0, 1:
+		h.Kind = "ordered"
+		c16AddFeature(sc, "hook-ordered")
+	case 2:
+		if !updating {
+			// verbatim echo under an update-permitting strategy is the known echo-hook hot loop (composite D24)
+			h.Kind = "echo"
+			c16AddFeature(sc, "hook-echo")
+		} else {
+			c16AddFeature(sc, "hook-const")
+		}
+	default:
+		c16AddFeature(sc, "hook-const")
+	}
+	sc.Hook = h
+	// the initial population
+	sc.Warmup = r.Intn(3)
+	if sc.Warmup > 0 {
+		c16AddFeature(sc, "population-matching")
+		for _, a := range h.Attachments {
+			ref := c16AttRef(a, rule)
+			if !rule.Namespaced && c16ResByKind(ref.APIVersion, ref.Kind).Namespaced {
+				ref.Namespace = "ns2"
+			}
+			switch r.Intn(6) {
+			case 0:
+				ref.Op = "delete"
+				c16AddFeature(sc, "population-deleted")
+			case 1:
+				if a["kind"] == "ConfigMap" {
+					ref.Op, ref.Data = "edit", c16J{"data": c16J{"k": "drifted"}}
+				} else {
+					ref.Op, ref.Data = "edit", c16J{"spec": c16J{"size": int64(99)}}
+				}
+				c16AddFeature(sc, "population-drifted-owned-field")
+			case 2:
+				ref.Op, ref.Data = "edit", c16J{"foreignField": c16J{"k": "v"}}
+				c16AddFeature(sc, "population-drifted-foreign-field")
+			case 3:
+				if a["kind"] != "ConfigMap" {
+					ref.Op, ref.Data = "status", c16J{"ready": true}
+					c16AddFeature(sc, "population-status-written")
+				}
+			}
+			if ref.Op != "" {
+				sc.Setup = append(sc.Setup, ref)
+			}
+		}
+	} else {
+		c16AddFeature(sc, "population-empty")
+	}
+	// ours but no longer desired
+	for j := 0; j < r.Intn(2); j++ {
+		a := sc.Ctl.Attachments[r.Intn(len(sc.Ctl.Attachments))]
+		o := g.attachment(a, rule, fmt.Sprintf("x%d", j), 5)
+		omd := o["metadata"].(map[string]interface{})
+		if a.Namespaced {
+			omd["namespace"] = "ns1"
+			if !rule.Namespaced {
+				omd["namespace"] = "ns2"
+			}
+		}
+		omd["annotations"] = c16J{c16Marker: sc.Ctl.Name}
+		omd["ownerReferences"] = c16A{c16J{"apiVersion": sc.Target["apiVersion"], "kind": sc.Target["kind"], "name": "t1", "uid": c16TargetUID,
+			"controller": true, "blockOwnerDeletion": true}}
+		sc.Setup = append(sc.Setup, c16ExtOp{Op: "create", Data: o})
+		c16AddFeature(sc, "population-ours-undesired")
+	}
+	// look-alikes and unowned objects: never ours, must stay byte for byte
+	if r.Chance(3, 4) {
+		g.unmarked(sc, rule, r.Bool())
+	}
+	for j := 0; j < r.Intn(2); j++ {
+		a := sc.Ctl.Attachments[r.Intn(len(sc.Ctl.Attachments))]
+		o := g.attachment(a, rule, fmt.Sprintf("free%d", j), 6)
+		omd := o["metadata"].(map[string]interface{})
+		if a.Namespaced {
+			omd["namespace"] = "ns1"
+			if !rule.Namespaced {
+				omd["namespace"] = "ns2"
+			}
+		}
+		if r.Bool() {
+			omd["annotations"] = c16J{c16Marker: sc.Ctl.Name} // our marker, nobody's object
+		}
+		sc.Setup = append(sc.Setup, c16ExtOp{Op: "create", Data: o})
+		c16AddFeature(sc, "population-unowned")
+	}
+	sc.Converge = 6
+	c16AddFeature(sc, "converge")
+	return sc
+}
+
+// discoveryLoss: after the controller was built, discovery stops listing a declared attachment resource (a lost
+// aggregated API, a refresh race) while the informer still holds owned attachments of it
+func (g *c16Gen) discoveryLoss(i int, seed uint64) *c16Scenario {
+	r := g.r
+	sc := g.basic("discovery-loss", i, seed)
+	var rule c16RuleSpec
+	for _, ru := range sc.Ctl.Rules {
+		if ru.Kind == sc.Target["kind"] {
+			rule = ru
+		}
+	}
+	lm := c16Meta(sc.Target, "labels")
+	c16Satisfy(lm, rule.Labels)
+	am := c16Meta(sc.Target, "annotations")
+	c16Satisfy(am, rule.Annotations)
+	md := sc.Target["metadata"].(map[string]interface{})
+	md["labels"], md["annotations"] = lm, am
+	sc.Hook2 = nil
+	sc.Ctl.NoSync = false
+	delete(sc.Hook.Labels, "managed")
+	if len(sc.Hook.Attachments) == 0 {
+		a := sc.Ctl.Attachments[0]
+		sc.Hook.Attachments = []c16J{g.attachment(a, rule, "a0", 1)}
+	}
+	sc.Warmup = 1 + r.Intn(2)
+	lost := sc.Ctl.Attachments[r.Intn(len(sc.Ctl.Attachments))]
+	sc.Rounds = []c16RoundSpec{{HideDiscovery: []string{lost.APIVersion + "|" + lost.Resource}}, {}}
+	if r.Chance(1, 3) {
+		sc.Rounds = append([]c16RoundSpec{{}}, sc.Rounds...)
+	}
+	c16AddFeature(sc, "discovery-loses-attachment-resource")
+	return sc
+}
+
 var c16RawBodies = []string{
 	`null`, `[]`, `"text"`, `not json`, `{}`,
 	`{"labels":{"a":1}}`, `{"labels":["a"]}`, `{"labels":{"a":true}}`, `{"labels":"x"}`,
@@ -1505,16 +1696,74 @@ func c16Corpus() []*c16Scenario {
 	return out
 }
 
+// hand-written convergence cases
+func c16ConvergeCorpus() []*c16Scenario {
+	podRule := c16PodRule
+	podRule.Labels = &c16Sel{Match: map[string]string{"managed": "yes"}}
+	pod := c16J{"apiVersion": "v1", "kind": "Pod", "metadata": c16J{"name": "t1", "namespace": "ns1", "uid": c16TargetUID, "generation": int64(1),
+		"labels": c16J{"managed": "yes"}}, "spec": c16J{"replicas": int64(2)}}
+	cm := func(name, v string) c16J {
+		return c16J{"apiVersion": "v1", "kind": "ConfigMap", "metadata": c16J{"name": name}, "data": c16J{"k": v}}
+	}
+	owned := func(name string, ann c16J, uid string) c16J {
+		o := cm(name, "foreign")
+		md := o["metadata"].(c16J)
+		md["namespace"] = "ns1"
+		md["ownerReferences"] = c16A{c16J{"apiVersion": "v1", "kind": "Pod", "name": "t1", "uid": uid, "controller": true, "blockOwnerDeletion": true}}
+		if ann != nil {
+			md["annotations"] = ann
+		}
+		return o
+	}
+	var out []*c16Scenario
+	for j, m := range []string{"", "OnDelete", "Recreate", "InPlace"} {
+		att := c16AttConfigMap
+		att.Method = m
+		name := fmt.Sprintf("conv%d", j)
+		// look-alikes around a constant hook: a native child of the target without any decorator annotation,
+		// one marked by another decorator, one with our marker under another controller
+		out = append(out, &c16Scenario{Family: "corpus", Features: []string{"converge", "corpus-converge-lookalikes", "hook-const"},
+			Ctl: c16CtlSpec{Name: name, Rules: []c16RuleSpec{podRule}, Attachments: []c16AttSpec{att}}, Target: runtime.DeepCopyJSON(pod),
+			Hook: c16HookProgram{Kind: "const", Labels: map[string]*string{"deco": c16Str("1")}, Attachments: []c16J{cm("d0", "1"), cm("d1", "1")}},
+			Setup: []c16ExtOp{
+				{Op: "create", Data: owned("native-child", nil, c16TargetUID)},
+				{Op: "create", Data: owned("other-decorators", c16J{c16Marker: "someone-else"}, c16TargetUID)},
+				{Op: "create", Data: owned("other-controllers", c16J{c16Marker: name}, "uid-somebody")},
+			},
+			Converge: 6})
+		// drift and deletion after a warm-up, an ordered hook
+		out = append(out, &c16Scenario{Family: "corpus", Features: []string{"converge", "corpus-converge-drift", "hook-ordered"},
+			Ctl: c16CtlSpec{Name: name + "o", Rules: []c16RuleSpec{podRule}, Attachments: []c16AttSpec{att}}, Target: runtime.DeepCopyJSON(pod),
+			Hook:   c16HookProgram{Kind: "ordered", Attachments: []c16J{cm("d0", "1"), cm("d1", "1"), cm("d2", "1")}},
+			Warmup: 2,
+			Setup: []c16ExtOp{
+				{Op: "edit", APIVersion: "v1", Kind: "ConfigMap", Namespace: "ns1", Name: "d0", Data: c16J{"data": c16J{"k": "drifted"}}},
+				{Op: "delete", APIVersion: "v1", Kind: "ConfigMap", Namespace: "ns1", Name: "d1"},
+			},
+			Converge: 6})
+	}
+	return out
+}
+
 func c16GenerateScenarios(prop string, seed uint64, n int, adv bool) []*c16Scenario {
 	root := vh.NewRng(seed ^ 0xc16c16)
 	out := c16Corpus()
+	if prop == "C01d" {
+		out = c16ConvergeCorpus()
+	}
 	// the C06 leg looks at attachment traffic: weight the update-strategy family
 	strategySlots := map[int]bool{2: true, 4: true}
 	if prop == "C06d" {
 		strategySlots = map[int]bool{0: true, 1: true, 2: true, 3: true, 4: true, 5: true, 7: true, 10: true}
 	}
-	extra := map[int]string{6: "nulls", 9: "retries"}
+	extra := map[int]string{6: "nulls", 9: "retries", 11: "converge"}
 	switch prop {
+	case "C01d":
+		extra = map[int]string{}
+		for j := 0; j < 16; j++ {
+			extra[j] = "converge"
+		}
+		strategySlots = map[int]bool{}
 	case "C13d":
 		extra = map[int]string{0: "nulls", 1: "nulls", 3: "nulls", 5: "nulls", 6: "nulls", 7: "hostile", 9: "hostile", 10: "nulls", 2: "hostile"}
 		strategySlots = map[int]bool{}
@@ -1522,10 +1771,13 @@ func c16GenerateScenarios(prop string, seed uint64, n int, adv bool) []*c16Scena
 		extra = map[int]string{0: "retries", 1: "retries", 3: "retries", 5: "retries", 6: "retries", 7: "hostile", 9: "retries", 10: "faults", 2: "faults"}
 		strategySlots = map[int]bool{}
 	case "C03d":
-		extra = map[int]string{0: "shared", 1: "shared", 3: "shared", 5: "shared", 6: "nulls", 10: "shared"}
+		extra = map[int]string{0: "shared", 1: "shared", 3: "shared", 5: "shared", 6: "nulls", 10: "shared", 11: "discovery-loss", 13: "discovery-loss"}
 	}
 	// the C10 / C17 legs look at the end of a target's life: weight the dying-target family
 	dyingSlots := map[int]bool{8: true}
+	if prop == "C01d" {
+		dyingSlots = map[int]bool{}
+	}
 	if prop == "C10d" || prop == "C17d" {
 		dyingSlots = map[int]bool{0: true, 1: true, 3: true, 5: true, 7: true, 8: true, 10: true}
 	}
@@ -1553,9 +1805,17 @@ func c16GenerateScenarios(prop string, seed uint64, n int, adv bool) []*c16Scena
 				pick = 12
 			case "shared":
 				pick = 7
+			case "converge":
+				pick = 104
+			case "discovery-loss":
+				pick = 105
 			}
 		}
 		switch pick {
+		case 104:
+			sc = g.converge(i, s)
+		case 105:
+			sc = g.discoveryLoss(i, s)
 		case 102:
 			sc = g.nulls(i, s)
 		case 103:
